@@ -134,7 +134,12 @@ class DensityLegalizer : public HierarchicalDensityPlacement {
    */
   void report(bool verbose = false) const;
 
+#ifdef COLOQUINTE_VERIF
+  // verification hook: the re-optimisation helpers below are driven directly by the conformance harness
+ public:
+#else
  private:
+#endif
   /**
    * @brief Improve neighbouring bin pairs in the x direction
    */
